@@ -521,6 +521,17 @@ func (p *pipeT) findEntry(ans int) *cache.VerifC19Entry {
 	return nil
 }
 
+// allReplyOpts: the options of every OPT record of a client reply.
+func allReplyOpts(m *dns.Msg) []dns.EDNS0 {
+	var out []dns.EDNS0
+	for _, rr := range m.Extra {
+		if o, ok := rr.(*dns.OPT); ok {
+			out = append(out, o.Option...)
+		}
+	}
+	return out
+}
+
 func pipeQ(f []string) vlib.Res {
 	p := pipe
 	c, proto, qid, cd := parseClient(f[0]), f[1], vlib.Atoi(f[2]), f[3] == "t"
@@ -539,13 +550,11 @@ func pipeQ(f []string) vlib.Res {
 	}
 	served := idOfMsg(reply)
 	ropt := "noopt"
-	var ropts []dns.EDNS0
 	if o := reply.IsEdns0(); o != nil {
-		ropts = o.Option
 		ropt = renderOpts(o.Option, false)
 	}
 	var or []string
-	if v := checkReply(ropts); v != "" {
+	if v := checkReply(allReplyOpts(reply)); v != "" {
 		or = append(or, v)
 	}
 	tags := ""
